@@ -41,6 +41,12 @@ struct TokenChoice {
     std::string other_name;   // non-empty: the exact token travels under this header name instead
 };
 
+// extension lengths include the places where a narrowed length comparison wraps (2^8, 2^9, 2^10 and neighbours)
+std::size_t ext_len(unsigned arg) {
+    static const std::size_t k[] = {1, 2, 3, 1, 2, 3, 16, 255, 256, 257, 512, 1024};
+    return k[arg % 12];
+}
+
 TokenChoice make_token(const std::string& tok, unsigned variant, unsigned arg, std::uint64_t seed) {
     TokenChoice t;
     Prng g(seed ^ 0x70CEull);
@@ -49,7 +55,7 @@ TokenChoice make_token(const std::string& tok, unsigned variant, unsigned arg, s
         case 1: case 11: t.sent = true; t.value = tok; break;
         case 2: t.sent = true; t.value = ctl::printable(g, tok.size()); break;
         case 3: t.sent = true; t.value = tok.substr(0, arg % tok.size()); break;
-        case 4: t.sent = true; t.value = tok + ctl::printable(g, 1 + arg % 3); break;
+        case 4: t.sent = true; t.value = tok + ctl::printable(g, ext_len(arg)); break;
         case 5: {
             t.sent = true;
             t.value = tok;
@@ -62,7 +68,7 @@ TokenChoice make_token(const std::string& tok, unsigned variant, unsigned arg, s
         }
         case 6: t.sent = true; t.value = ""; break;
         case 7: t.sent = true; t.value = tok.substr(1 + arg % tok.size()); break;
-        case 8: t.sent = true; t.value = ctl::printable(g, 1 + arg % 3) + tok; break;
+        case 8: t.sent = true; t.value = ctl::printable(g, ext_len(arg)) + tok; break;
         case 9: t.sent = true; t.value = tok; t.value[arg % tok.size()] = static_cast<char>(t.value[arg % tok.size()] ^ (1 << ((arg / 40) % 3))); break;
         case 10: {
             static const char* names[] = {"X-TOKEN", "TOKENS", "AUTH"};
